@@ -48,3 +48,54 @@ Proof. exact (@Chunk.chunks_before_message). Qed.
 End T_chunks_before_message.
 Definition C08_chunks_before_message := @T_chunks_before_message.C08_chunks_before_message.
 
+Module T_flush_executes_pending. Import Chunk. Local Open Scope bool_scope. Local Open Scope Z_scope.
+Import ParserModel. Local Open Scope Z_scope.
+Theorem C08_flush_executes_pending :
+  forall c d,
+  input_core c [] d = (upd_mem (fst (scpi_parse c (Z.of_nat (length (mem c))) d)) [], snd (scpi_parse c (Z.of_nat (length (mem c))) d)).
+Proof. exact (@Chunk.flush_executes_pending). Qed.
+End T_flush_executes_pending.
+Definition C08_flush_executes_pending := @T_flush_executes_pending.C08_flush_executes_pending.
+
+Module T_overrun_discards. Import Chunk. Local Open Scope bool_scope. Local Open Scope Z_scope.
+Import ParserModel. Local Open Scope Z_scope.
+Theorem C08_overrun_discards :
+  forall c x d,
+  x <> [] -> cap c - Z.of_nat (length (mem c)) - 1 < Z.of_nat (length x) ->
+  input_core c x d = (error_push (upd_mem c []) (-363) None, false).
+Proof. exact (@Chunk.overrun_discards). Qed.
+End T_overrun_discards.
+Definition C08_overrun_discards := @T_overrun_discards.C08_overrun_discards.
+
+Definition C08_partition_reduction := @Chunk.partition_reduction.
+
+Module T_partition_one_message. Import Chunk. Local Open Scope bool_scope. Local Open Scope Z_scope.
+Import ParserModel. Local Open Scope Z_scope.
+Theorem C08_partition_one_message :
+  forall d chunks c,
+  chunks <> [] -> Forall (fun x => x <> []) chunks -> quiet_class c (concat chunks) ->
+  feed c chunks d = fst (input_core c (concat chunks) d).
+Proof. exact (@Chunk.partition_one_message). Qed.
+End T_partition_one_message.
+Definition C08_partition_one_message := @T_partition_one_message.C08_partition_one_message.
+
+Module T_message_in_pieces. Import Chunk. Local Open Scope bool_scope. Local Open Scope Z_scope.
+Import ParserModel. Local Open Scope Z_scope.
+Theorem C08_message_in_pieces :
+  forall c msg t,
+  mem c = [] -> no_nl msg -> Z.of_nat (length msg) + 1 <= cap c - 1 -> quiet_class c (msg ++ [t]).
+Proof. exact (@Chunk.message_in_pieces). Qed.
+End T_message_in_pieces.
+Definition C08_message_in_pieces := @T_message_in_pieces.C08_message_in_pieces.
+
+Module T_one_message_any_partition. Import Chunk. Local Open Scope bool_scope. Local Open Scope Z_scope.
+Import ParserModel. Local Open Scope Z_scope.
+Theorem C08_one_message_any_partition :
+  forall d c msg t chunks,
+  mem c = [] -> no_nl msg -> Z.of_nat (length msg) + 1 <= cap c - 1 ->
+  chunks <> [] -> Forall (fun x => x <> []) chunks -> concat chunks = msg ++ [t] ->
+  feed c chunks d = fst (input_core c (msg ++ [t]) d).
+Proof. exact (@Chunk.one_message_any_partition). Qed.
+End T_one_message_any_partition.
+Definition C08_one_message_any_partition := @T_one_message_any_partition.C08_one_message_any_partition.
+
